@@ -204,6 +204,25 @@ pub fn ord_usize<A: HC + Ord, const K: usize>(op: &str, a: &KArgs<A>) -> R<Strin
         return Err(Fail::Unsup);
     }
     Ok(match op {
+        "minafter" => {
+            // min / max / count / last of what remains after taking `n` k-mers with next()
+            let x = a.slice.unwrap();
+            let mut it = x.kmers::<K>();
+            for _ in 0..a.n {
+                let _ = it.next();
+            }
+            let mut it2 = x.kmers::<K>();
+            for _ in 0..a.n {
+                let _ = it2.next();
+            }
+            let mut it3 = x.kmers::<K>();
+            for _ in 0..a.n {
+                let _ = it3.next();
+            }
+            let mn = it.min().map(|k| k.bs.to_string()).unwrap_or("none".into());
+            let mx = it2.max().map(|k| k.bs.to_string()).unwrap_or("none".into());
+            format!("{mn} {mx} {}", it3.count())
+        }
         "minmax" => {
             let x = a.slice.unwrap();
             let mn = x.kmers::<K>().min().map(|k| k.bs.to_string()).unwrap_or("none".into());
@@ -279,7 +298,7 @@ pub fn op_kmers_adapt<A: HC, const K: usize>(ad: &str, arg: usize, x: &SeqSlice<
 
 pub const USIZE_OPS: &[&str] = &["tryseq", "deref", "toseq", "int", "fromint", "fromint64", "rev", "revmut", "eqstr", "eqseq", "iterhash", "kmers"];
 pub const DNA_OPS: &[&str] = &["comp", "revcomp", "compmut", "revcompmut", "canon"];
-pub const ORD_OPS: &[&str] = &["cmp", "minmax"];
+pub const ORD_OPS: &[&str] = &["cmp", "minmax", "minafter"];
 
 /// per-codec dispatch over exactly the `K`s that fit (lists by symbol width)
 #[macro_export]
@@ -323,7 +342,7 @@ macro_rules! kdispatch_impl {
         return Err(Fail::Unsup)
     };
     (@ord yes, $op:ident, $k:ident, $st:ident, $a:ident, [$($k64:literal)*], [$($k128:literal)*]) => {
-        if $op == "minmax" {
+        if $op == "minmax" || $op == "minafter" {
             if $st != "usize" { return Err(Fail::Unsup); }
             return match $k { $($k64 => ord_usize::<Self, $k64>($op, $a),)* _ => Err(Fail::Unsup) };
         }
@@ -356,6 +375,14 @@ pub fn query<A: HC>(q: &str, t: &mut Toks) -> R<String> {
             let mut a = KArgs::<A> { v: 0, v2: 0, n: 0, text: String::new(), pairing: String::new(), slice: None, seq: None };
             let utf8 = |h: Vec<u8>| String::from_utf8(h).map_err(|_| Fail::BadOp("utf8".into()));
             match op.as_str() {
+                "minafter" => {
+                    let n = t.num()?;
+                    let s = parse_s(t)?;
+                    return eval_s::<A, _>(&s, &mut |x| {
+                        let a = KArgs::<A> { v: 0, v2: 0, n, text: String::new(), pairing: String::new(), slice: Some(x), seq: None };
+                        A::kdispatch(&op, k, &st, &a)
+                    });
+                }
                 "try" | "unsafefrom" | "iterhash" | "minmax" => {
                     let s = parse_s(t)?;
                     return eval_s::<A, _>(&s, &mut |x| {
